@@ -101,3 +101,27 @@ Theorem C03_primitive_greedy_Q : forall (p : profile) (rt : Q -> Q) (meth : meth
     /\ (requires_sorting meth = false -> heights d' = map (k_rt (kops_of (QFr rt) meth)) (map (@s_dis Q) raw)).
 Proof. exact primitive_greedy_Q. Qed.
 Print Assumptions C03_primitive_greedy_Q.
+
+(* the iteration theorem on the two float carriers of the correspondence check
+   (IEEE `<` is transitive and irreflexive, NaNs included: Proofs/FloatOrder.v) *)
+Require Import KV.Run.F64 KV.Run.F32 KV.Proofs.FloatInstances.
+From Flocq Require Import IEEE754.BinarySingleNaN.
+Theorem C03_primitive_iteration_greedy_f64 : forall (p : profile) meth s d M i s' d' M' L,
+  PInv s M L -> prim_iter (kops_of F64 meth) p meth (s, d, M) i = Ok (s', d', M') ->
+  exists a b v sz,
+    In a L /\ In b L /\ a < b /\ mcell M a b = Some v
+    /\ (forall x y w, In x L -> In y L -> x < y -> mcell M x y = Some w -> PrimFloat.ltb w v = false)
+    /\ d_steps d' = d_steps d ++ [step_new a b v sz]
+    /\ PInv s' M' (without a L).
+Proof. exact prim_iter_greedy_f64. Qed.
+Print Assumptions C03_primitive_iteration_greedy_f64.
+
+Theorem C03_primitive_iteration_greedy_f32 : forall (p : profile) meth s d M i s' d' M' L,
+  PInv s M L -> prim_iter (kops_of F32 meth) p meth (s, d, M) i = Ok (s', d', M') ->
+  exists a b v sz,
+    In a L /\ In b L /\ a < b /\ mcell M a b = Some v
+    /\ (forall x y w, In x L -> In y L -> x < y -> mcell M x y = Some w -> Bltb w v = false)
+    /\ d_steps d' = d_steps d ++ [step_new a b v sz]
+    /\ PInv s' M' (without a L).
+Proof. exact prim_iter_greedy_f32. Qed.
+Print Assumptions C03_primitive_iteration_greedy_f32.
